@@ -35,6 +35,9 @@ def _pending_gt0(body, dg, b):
     return None
 
 
+_IMPORTING_C10 = False
+
+
 def check(ctx):
     fx = ctx.fx
     # ------------------------------------------------------------------ R06.1 flush
@@ -75,6 +78,12 @@ def check(ctx):
         first = min(flushes, key=lambda b: len(body.dom[b]))
         args = [c for (b, c) in body.calls if b == first][0]["args"]
         ctx.ob("R06.1", f"{k}|flush-first", all(body.dominates(first, r) for (r, _) in S.ret_assignments(body)), body.loc(first), "every answer of end_all_streams is produced after the first flush")
+    # every flush of the close path is handed the caller's timeout itself: `Duration::ZERO` means "no timeout", so a recomputed budget (`timeout - elapsed`, saturating
+    # at ZERO once the first flush used it up) turns an expired bounded close into an unbounded wait
+    for (fb, fc) in [(b, c) for (b, c) in body.calls if (c.get("resolved") or c.get("f")) == SM + "::flush"]:
+        targ = util.resolve_capture(fx, k, dg.expr(fc["args"][1]))[1]
+        ctx.ob("R06.1", f"{k}|flush-gets-the-caller-s-timeout", util.plain_forward(dg.expr(fc["args"][1])) and "timeout" in show(dg.expr(fc["args"][1])), body.loc(fb),
+               f"flush({show(dg.expr(fc['args'][1]))[:80]}, ..); required: the timeout parameter, unchanged")
     is_running = lambda c: (c.get("resolved") or c.get("f")) == SM + "::running_streams_count"
     h = S.wait_loop_of(body, is_running)
     if h is None:
@@ -249,6 +258,17 @@ def check(ctx):
             return ok
     util.guarded(ctx, C02.check, OnlyBacklog(ctx, "R06.8")); util.guarded(ctx, C09.check, OnlyBacklog(ctx, "R06.8"))
     if not getattr(ctx, "deferred_infra", None): ctx.floor("R06.8", 10)
+    # R06.5 (bookkeeping side) the running-stream count drops only through the stream's own Drop: report_stream_dropped is reachable only from drop_resources (C10 R10.2) --
+    # an id "freed" on a timeout path makes the count run below the number of live streams, and a later unbounded close returns while one of them is mid-event
+    global _IMPORTING_C10
+    _c10 = __import__("importlib").import_module("props.C10")
+    if getattr(ctx, "pid", None) == "C06" and not isinstance(ctx, util.PrefixedCtx) and not _IMPORTING_C10 and not getattr(_c10, "_IMPORTING_C06", False):
+        sub10 = util.fresh_ctx(ctx, "C10")
+        _IMPORTING_C10 = True
+        try: util.guarded(ctx, _c10.check, sub10)
+        finally: _IMPORTING_C10 = False
+        for o in sub10.obs:
+            if o["rule"] == "R10.2" and ("report_stream_dropped" in o["key"] or "drop-releases" in o["key"]): ctx.ob("R06.5", o["key"], o["ok"], o["site"], o["detail"], o["nontrivial"])
     # ------------------------------------------------------------------ R06.9 no future is created and thrown away unpolled
     # (`_ = self.channel.gracefully_end_all_streams(timeout);` -- the `.await` forgotten, the `_ =` silencing must_use -- flushes nothing and ends nothing: close returns
     #  with streams running and events buffered.  Every call in the library whose answer is a future has that answer used: awaited, returned, joined, boxed, spawned.)
